@@ -141,7 +141,7 @@ func arbitrary(t types.Type, path string, doc *docRec, depth int) value {
 		s := make(structure, u.NumFields())
 		for i := range s {
 			f := u.Field(i)
-			if !f.Exported() || tagName(u.Tag(i), doc.format, f.Name()) == "-" {
+			if !f.Exported() || tagName(u.Tag(i), doc.format, f.Name()) == "-" || (doc.format == "xml" && (f.Name() == "XMLName" || xmlTagOf(u.Tag(i), f.Name()).skip)) {
 				s[i] = zero(f.Type())
 				continue
 			}
@@ -170,7 +170,12 @@ func arbitrary(t types.Type, path string, doc *docRec, depth int) value {
 		default:
 			return zero(t) // floats, complex: not modelled
 		}
-	case *types.Pointer, *types.Slice, *types.Map, *types.Interface:
+	case *types.Map, *types.Interface:
+		if doc.format == "xml" {
+			return zero(t)
+		}
+		return &lazycell{t: t, path: path, doc: doc, depth: depth}
+	case *types.Pointer, *types.Slice:
 		return &lazycell{t: t, path: path, doc: doc, depth: depth}
 	}
 	return zero(t)
@@ -627,6 +632,29 @@ func renderDoc(d *docRec, m map[string]uint64) string {
 		}
 		return sb.String()
 	}
+	if d.format == "xml" {
+		rt := d.t
+		for {
+			pt, isPtr := rt.Underlying().(*types.Pointer)
+			if !isPtr {
+				break
+			}
+			rv, ok := r.resolved(root)
+			if !ok {
+				return "<" + xmlRootName(pt.Elem()) + "></" + xmlRootName(pt.Elem()) + ">"
+			}
+			p, _ := rv.(*value)
+			if p == nil {
+				return "<" + xmlRootName(pt.Elem()) + "></" + xmlRootName(pt.Elem()) + ">"
+			}
+			root, rt = *p, pt.Elem()
+		}
+		name := xmlRootName(rt)
+		if txt := r.xmlElems(name, rt, root); txt != "" {
+			return txt
+		}
+		return "<" + name + "></" + name + ">"
+	}
 	txt, ok := r.value(d.t, root)
 	if !ok {
 		return "null"
@@ -787,4 +815,179 @@ func assignTree(t types.Type, tree value, format string) value {
 		return zero(t)
 	}
 	panic(engineError{"DecodeTree: unsupported target type " + t.String()})
+}
+
+// ---------------------------------------------------------------------------------------------
+// XML rendering of arbitrary decoded values (encoding/xml struct tags: name, a>b paths, ",attr",
+// ",chardata", "-"; an XMLName field's tag names the root element).
+
+type xmlField struct {
+	path     []string // element path (last = element/attribute name)
+	attr     bool
+	chardata bool
+	skip     bool
+}
+
+func xmlTagOf(tag, field string) xmlField {
+	v, ok := reflect.StructTag(tag).Lookup("xml")
+	if !ok {
+		return xmlField{path: []string{field}}
+	}
+	parts := strings.Split(v, ",")
+	f := xmlField{}
+	for _, o := range parts[1:] {
+		switch o {
+		case "attr":
+			f.attr = true
+		case "chardata", "cdata", "innerxml":
+			f.chardata = true
+		case "any", "comment":
+			f.skip = true
+		}
+	}
+	name := parts[0]
+	if name == "-" {
+		f.skip = true
+	}
+	if name == "" {
+		name = field
+	}
+	// a namespace prefix "ns name" is not modelled
+	if i := strings.LastIndex(name, " "); i >= 0 {
+		name = name[i+1:]
+	}
+	f.path = strings.Split(name, ">")
+	return f
+}
+
+func xmlEscape(s string) string {
+	var sb strings.Builder
+	for i := 0; i < len(s); i++ {
+		switch c := s[i]; c {
+		case '&':
+			sb.WriteString("&amp;")
+		case '<':
+			sb.WriteString("&lt;")
+		case '>':
+			sb.WriteString("&gt;")
+		case '"':
+			sb.WriteString("&quot;")
+		case '\'':
+			sb.WriteString("&apos;")
+		default:
+			sb.WriteByte(c)
+		}
+	}
+	return sb.String()
+}
+
+func (r *renderer) resolved(v value) (value, bool) {
+	if lc, isLazy := v.(*lazycell); isLazy {
+		if !lc.done {
+			return nil, false
+		}
+		return lc.val, true
+	}
+	return v, true
+}
+
+// xmlText renders a scalar as character data; ok=false: never materialised.
+func (r *renderer) xmlText(t types.Type, v value) (string, bool) {
+	v, ok := r.resolved(v)
+	if !ok {
+		return "", false
+	}
+	if b, isBasic := t.Underlying().(*types.Basic); isBasic && b.Kind() == types.String {
+		return xmlEscape(r.str(v)), true
+	}
+	saved := r.format
+	r.format = "json"
+	txt, ok := r.value(t, v)
+	r.format = saved
+	return txt, ok
+}
+
+// xmlElems renders value v of type t as zero or more elements called name.
+func (r *renderer) xmlElems(name string, t types.Type, v value) string {
+	v, ok := r.resolved(v)
+	if !ok {
+		return ""
+	}
+	switch u := t.Underlying().(type) {
+	case *types.Struct:
+		s, isStruct := v.(structure)
+		if !isStruct {
+			return ""
+		}
+		var attrs, body strings.Builder
+		for i := 0; i < u.NumFields(); i++ {
+			f := u.Field(i)
+			if !f.Exported() || f.Name() == "XMLName" {
+				continue
+			}
+			xf := xmlTagOf(u.Tag(i), f.Name())
+			switch {
+			case xf.skip:
+			case xf.attr:
+				if txt, ok := r.xmlText(f.Type(), s[i]); ok {
+					attrs.WriteString(" " + xf.path[len(xf.path)-1] + `="` + txt + `"`)
+				}
+			case xf.chardata:
+				if txt, ok := r.xmlText(f.Type(), s[i]); ok {
+					body.WriteString(txt)
+				}
+			default:
+				inner := r.xmlElems(xf.path[len(xf.path)-1], f.Type(), s[i])
+				if inner == "" {
+					continue
+				}
+				for k := len(xf.path) - 2; k >= 0; k-- {
+					inner = "<" + xf.path[k] + ">" + inner + "</" + xf.path[k] + ">"
+				}
+				body.WriteString(inner)
+			}
+		}
+		return "<" + name + attrs.String() + ">" + body.String() + "</" + name + ">"
+	case *types.Slice:
+		if b, isBasic := u.Elem().Underlying().(*types.Basic); isBasic && b.Kind() == types.Uint8 {
+			return ""
+		}
+		l, _ := v.([]value)
+		var sb strings.Builder
+		for _, e := range l {
+			one := r.xmlElems(name, u.Elem(), e)
+			if one == "" {
+				one = "<" + name + "></" + name + ">"
+			}
+			sb.WriteString(one)
+		}
+		return sb.String()
+	case *types.Pointer:
+		p, _ := v.(*value)
+		if p == nil {
+			return ""
+		}
+		return r.xmlElems(name, u.Elem(), *p)
+	case *types.Basic:
+		if txt, ok := r.xmlText(t, v); ok {
+			return "<" + name + ">" + txt + "</" + name + ">"
+		}
+	}
+	return ""
+}
+
+func xmlRootName(t types.Type) string {
+	if st, ok := t.Underlying().(*types.Struct); ok {
+		for i := 0; i < st.NumFields(); i++ {
+			if st.Field(i).Name() == "XMLName" {
+				if xf := xmlTagOf(st.Tag(i), ""); len(xf.path) > 0 && xf.path[0] != "" {
+					return xf.path[len(xf.path)-1]
+				}
+			}
+		}
+	}
+	if n, ok := types.Unalias(t).(*types.Named); ok {
+		return n.Obj().Name()
+	}
+	return "root"
 }
